@@ -85,6 +85,17 @@ func (fc *FnCtx) evalTargets(x ast.Expr, env *Env) []WTarget {
 					ts = append(ts, WTarget{Region: "elem<" + leafTypeName(et) + ">" + lf.suffix, Idx: []Term{a.Sl.Base}, Row: true})
 				}
 				return ts
+			case "mapof":
+				// mapof(m): the contents (domain, size, values) of the map m refers to
+				m := fc.evalExpr(x.Args[0], env)
+				if _, ok := m.T.Underlying().(*types.Map); !ok {
+					panic(specErr("mapof(m): m must be a map"))
+				}
+				var ts []WTarget
+				for _, n := range fc.mapRegionNames(m.T) {
+					ts = append(ts, WTarget{Region: n, Idx: []Term{m.S}})
+				}
+				return ts
 			case "anybut":
 				// everything except the listed ghost variables
 				t := WTarget{Any: true}
